@@ -42,11 +42,14 @@ impl CaseSource for Tiny {
     }
 }
 
-struct SharedWriter(Arc<Mutex<Vec<u8>>>);
+/// second field: the writer accepts at most that many bytes per call (0 = everything). `std::io::Write`
+/// allows short writes (pipes, sockets, rate-limited sinks); the caller must re-offer the rest.
+struct SharedWriter(Arc<Mutex<Vec<u8>>>, usize);
 impl Write for SharedWriter {
     fn write(&mut self, buf: &[u8]) -> std::io::Result<usize> {
-        self.0.lock().unwrap().extend_from_slice(buf);
-        Ok(buf.len())
+        let k = if self.1 == 0 { buf.len() } else { buf.len().min(self.1) };
+        self.0.lock().unwrap().extend_from_slice(&buf[..k]);
+        Ok(k)
     }
     fn flush(&mut self) -> std::io::Result<()> {
         Ok(())
@@ -57,6 +60,8 @@ impl Write for SharedWriter {
 pub enum Target {
     Buffer,
     Stream,
+    /// a stream that takes at most k bytes per write call
+    StreamShort(usize),
     File,
 }
 
@@ -70,9 +75,10 @@ pub fn solve_printing(p: &Prob, st: &DefaultSettings<f64>, target: Target) -> Re
                 let s = solver.get_print_buffer().unwrap();
                 (s.into_bytes(), extract(&solver, vec![]))
             }
-            Target::Stream => {
+            Target::Stream | Target::StreamShort(_) => {
                 let shared = Arc::new(Mutex::new(Vec::new()));
-                solver.print_to_stream(Box::new(SharedWriter(shared.clone())));
+                let k = if let Target::StreamShort(k) = target { k } else { 0 };
+                solver.print_to_stream(Box::new(SharedWriter(shared.clone(), k)));
                 solver.solve();
                 let b = shared.lock().unwrap().clone();
                 (b, extract(&solver, vec![]))
@@ -338,6 +344,10 @@ impl Space for PrintCases {
         ctx.transitions += 6;
         let (tb, ts, tf) = (mask_time(&bb), mask_time(&sb), mask_time(&fb));
         ensure!(tb == ts, "buffer-and-stream-differ", "buffer:\n{}\nstream:\n{}", tb, ts);
+        // a stream with short writes (1 and 7 bytes per call, alternating with the case id) receives the same bytes
+        let k = if id % 2 == 0 { 1 } else { 7 };
+        let (kb, _) = solve_printing(&p, &st, Target::StreamShort(k)).map_err(|e| Violation::new("panic-with-verbose-on-only", e))?;
+        ensure!(mask_time(&kb) == tb, "buffer-and-short-write-stream-differ", "stream accepting {} byte(s) per write received {} bytes, buffer {}", k, kb.len(), bb.len());
         ensure!(tb == tf, "buffer-and-file-differ", "buffer:\n{}\nfile:\n{}", tb, tf);
         ensure!(r.status == rs.status && r.status == rf.status && r.obj_val.to_bits() == rs.obj_val.to_bits() && r.obj_val.to_bits() == rf.obj_val.to_bits(), "result-depends-on-print-target", "");
         ensure!(!bb.is_empty(), "no-output-with-verbose-on", "");
